@@ -34,8 +34,6 @@
 (declare-fun |ext_m_ValueExpr:antlr.IValueExprContext#0| (Any) Any)
 (declare-fun |ext_m_GetLine:int#0| (Any) Int)
 (declare-fun |ext_m_GetColumn:int#0| (Any) Int)
-(declare-fun x_Encode!4 () Int)
-(declare-fun x_Encode!2 () Int)
 (declare-fun |H\|parser.Range\|End.Character\|Int@0| () (Array Int Int))
 (assert
  (and (distinct str_0 str_1 str_2 str_3) true))
@@ -347,22 +345,10 @@
  (let ((?x221 (|ext_m_GetStop:v4.Token#0| in_ctx)))
  (and (distinct ?x221 nil) true)))
 (assert
- (>= (slen (|ext_m_GetText:string#0| (|ext_m_GetStop:v4.Token#0| in_ctx))) 0))
-(assert
- (>= (slen (|ext_m_GetText:string#0| (|ext_m_GetStop:v4.Token#0| in_ctx))) 0))
-(assert
- (let (($x315 (= x_Encode!4 0)))
- (let (($x313 (= x_Encode!2 0)))
- (=> $x313 $x315))))
-(assert
- (let (($x317 (>= x_Encode!2 0)))
- (and $x317 (< x_Encode!2 (+ (+ alloc@0 1) 1)))))
-(assert
- (>= 0 0))
-(assert
- (>= x_Encode!4 0))
-(assert
- (< x_Encode!2 alloc@0))
+ (let ((?x221 (|ext_m_GetStop:v4.Token#0| in_ctx)))
+ (let ((?x305 (|ext_m_GetText:string#0| ?x221)))
+ (let ((?x306 (slen ?x305)))
+ (>= ?x306 0)))))
 (assert
  (not (= alloc@0 0)))
 (assert
@@ -398,15 +384,19 @@
  (let (($x301 (>= ?x300 (- 9223372036854775808))))
  (and $x301 $x302))))))
 (assert
- (>= (slen (|ext_m_GetText:string#0| (|ext_m_GetStop:v4.Token#0| in_ctx))) 0))
+ (let ((?x221 (|ext_m_GetStop:v4.Token#0| in_ctx)))
+ (let ((?x305 (|ext_m_GetText:string#0| ?x221)))
+ (let ((?x306 (slen ?x305)))
+ (>= ?x306 0)))))
 (assert
  (let ((?x221 (|ext_m_GetStop:v4.Token#0| in_ctx)))
 (let ((?x305 (|ext_m_GetText:string#0| ?x221)))
-(let ((?x335 (srunes ?x305)))
+(let ((?x320 (srunes ?x305)))
 (let ((?x300 (|ext_m_GetColumn:int#0| ?x221)))
-(let ((?x323 (+ ?x300 x_Encode!4)))
-(let ((?x327 (store (store |H\|parser.Range\|End.Character\|Int@0| alloc@0 0) alloc@0 ?x323)))
-(let ((?x330 (select ?x327 alloc@0)))
-(let (($x337 (= ?x330 (+ ?x300 ?x335))))
-(not $x337))))))))))
+(let ((?x306 (slen ?x305)))
+(let ((?x308 (+ ?x300 ?x306)))
+(let ((?x312 (store (store |H\|parser.Range\|End.Character\|Int@0| alloc@0 0) alloc@0 ?x308)))
+(let ((?x315 (select ?x312 alloc@0)))
+(let (($x322 (= ?x315 (+ ?x300 ?x320))))
+(not $x322)))))))))))
 (check-sat)
